@@ -229,6 +229,11 @@ example : storePut 200 10 (some .chunkp) .chunk = (.ok, true) := by decide
 /-- a replicated chunk one byte below / at the limit -/
 example : validateSized (maxPacketSize - 1) ⟨false, .chunk, 0, .chunk 0, none⟩ [] = some (.ok, [.H 0, .W 0 .chunk]) := by decide
 example : validateSized maxPacketSize ⟨false, .chunk, 0, .chunk 0, none⟩ [] = none := by decide
+/-- the union with the local set is tested before the put: nothing is put, the held set stays -/
+example : validateSizedPut 3000000 (maxPacketSize + 512) ⟨false, .tx, 1, .txs [⟨0, 2, true⟩], none⟩ [(1, .txs [1])] =
+    .refusedAtPut [.G 1] := by decide
+example : validateSizedPut 3000000 (maxPacketSize - 512) ⟨false, .tx, 1, .txs [⟨0, 2, true⟩], none⟩ [(1, .txs [1])] =
+    .done .ok [.G 1, .W 1 (.txs [1, 2])] := by decide
 
 /-! ## The derivations themselves (`Model/AddrDerive`, content hash = SHA3-256 as defined in `Base/Sha3`;
 tied to the real address types by component `addrderive`) -/
@@ -273,7 +278,90 @@ addressed by the same key; a register of that owner is not (given collision-free
 theorem scratchpad_and_transactions_share_a_key (owner : List Nat) :
     recordKey (scratchpadName owner) = recordKey (transactionName owner) := rfl
 
+/-- **Addresses carry no kind tag** (known finding K-f5, recorded under C07): the chunk whose BYTES are an owner's
+public key has the record key of that owner's scratchpad and transaction set, and the chunk whose bytes are
+`label ++ owner` has the key of that register — `to_record_key` keeps only the 32 name bytes.  C04's own clause "a
+chunk is stored under the hash of its bytes" holds for such a chunk as for any other (`stored_key_is_derived`,
+`squatting_chunk_is_under_the_hash_of_its_bytes`): what the coincidence breaks is C07's "highest version / union of
+what was delivered" for that owner's records on a node where the chunk arrived first. -/
+theorem chunk_can_share_an_owner_derived_key (owner label : List Nat) :
+    recordKey (chunkName owner) = recordKey (scratchpadName owner) ∧
+    recordKey (chunkName owner) = recordKey (transactionName owner) ∧
+    recordKey (chunkName (label ++ owner)) = recordKey (registerName label owner) := ⟨rfl, rfl, rfl⟩
+
 end Derive
+
+/-! ## What the node PUTS is never oversized either
+
+C04's size clause speaks of arriving records; the reason for it is that a record of `MAX_PACKET_SIZE` bytes or more
+cannot travel (no peer accepts it by replication — `oversized_refused_every_path` — and kad cannot carry it).  The
+record a store function BUILDS by merging with the local copy was not tested: a held 3.1 MB transaction set plus a
+3.1 MB `TransactionWithPayment` with an expired quote (tolerated as an update: no payment at all) made the real node put
+a 6.2 MB record (`bigm c 1000000`).  Repaired: the same test before `put_local_record` in both merging store
+functions (two generated flags). -/
+
+theorem kindFam_cases' (k : Kind) : kindFam k = 0 ∨ kindFam k = 1 ∨ kindFam k = 2 ∨ kindFam k = 3 := by
+  cases k <;> simp [kindFam]
+
+theorem hasPut_cutAtPut (toks : List Tok) : hasPut (cutAtPut toks) = false := by
+  induction toks with
+  | nil => rfl
+  | cons t r ih => cases t <;> simp [cutAtPut, hasPut, ih]
+
+/-- **Every record the node puts is below `MAX_PACKET_SIZE`**: `len` = length of the arriving record, `plen` = length
+of the record its store function builds; a chunk / scratchpad put is the arriving content re-serialised without its
+payment (`hre`), a transaction set / register put is the union with the local copy and is tested on its own. -/
+theorem stored_record_never_oversized (len plen : Nat) (d : Delivery) (s : Store)
+    (hre : kindFam d.kind ≤ 1 → plen ≤ len) :
+    match validateSizedPut len plen d s with
+    | .refused => True
+    | .refusedAtPut toks => hasPut toks = false
+    | .done _ toks => hasPut toks = true → plen < maxPacketSize := by
+  have e1 : clientPathRefusesOversize = true := by decide
+  have e2 : replPathRefusesOversize = true := by decide
+  have e3 : nodeSizeRefusesAtLimit = true := by decide
+  have e4 : txMergedPutRefusesOversize = true := by decide
+  have e5 : regMergedPutRefusesOversize = true := by decide
+  unfold validateSizedPut
+  by_cases hg : sizeGate d.client len = true
+  · simp [hg]
+  · simp only [hg, Bool.false_eq_true, if_false]
+    have hlen : len < maxPacketSize := by
+      cases hc : d.client <;> simp [sizeGate, oversize, hc, e1, e2, e3] at hg <;> omega
+    by_cases hp : (putGate d && oversize plen && hasPut (validate d s).2) = true
+    · simp only [hp, if_true]
+      exact hasPut_cutAtPut _
+    · simp only [hp, Bool.false_eq_true, if_false]
+      intro hput
+      rcases kindFam_cases' d.kind with h | h | h | h
+      · have := hre (by omega); omega
+      · have := hre (by omega); omega
+      · simp [putGate, h, e4, hput, oversize, e3] at hp; omega
+      · simp [putGate, h, e5, hput, oversize, e3] at hp; omega
+
+/-- In the validation model the chunk whose bytes are address preimage `n` (`DContent.chunkPre n`) is put under key `n`
+and nowhere else, on both paths, whatever else derives key `n`. -/
+theorem squatting_chunk_is_under_the_hash_of_its_bytes (client : Bool) (kind : Kind) (rk n : Nat) (pay : Option PayD)
+    (s : Store) (k : Nat) (c : Content)
+    (hW : Tok.W k c ∈ (validate ⟨client, kind, rk, .chunkPre n, pay⟩ s).2) : k = n ∧ rk = n ∧ c = .chunk := by
+  have h := stored_key_is_derived ⟨client, kind, rk, .chunkPre n, pay⟩ s k c hW
+  have hW' := hW
+  rw [validate_trace] at hW'
+  obtain ⟨_, hw, hwr⟩ := W_mem_inv hW'
+  have hkey := imp_of_bool (tbl_put_needs_key_match client kind
+    (obsOfAns ⟨client, kind, rk, .chunkPre n, pay⟩ (seqAns ⟨client, kind, rk, .chunkPre n, pay⟩ s))) hw
+  simp only [Bool.and_eq_true] at hkey
+  have hfam := parse_fam hkey.2
+  have hnv : ¬ IsTxVector ⟨client, kind, rk, .chunkPre n, pay⟩ := by
+    rintro ⟨_, hk⟩
+    simp only at hk
+    subst hk
+    simp [contentFam, kindFam] at hfam
+  have hd := h.2.1 hnv
+  simp only [derivedKey, Option.some.injEq] at hd
+  refine ⟨hd.symm, ?_, ?_⟩
+  · have := h.1; simp only at this; omega
+  · rcases hwr with ⟨_, e⟩ | ⟨_, e⟩ <;> simp [e, written]
 
 end SafeNet.Props.C04
 
@@ -290,3 +378,6 @@ end SafeNet.Props.C04
 #print axioms SafeNet.Props.C04.derived_keys_are_content_hashes
 #print axioms SafeNet.Props.C04.key_determines_content
 #print axioms SafeNet.Props.C04.scratchpad_and_transactions_share_a_key
+#print axioms SafeNet.Props.C04.chunk_can_share_an_owner_derived_key
+#print axioms SafeNet.Props.C04.squatting_chunk_is_under_the_hash_of_its_bytes
+#print axioms SafeNet.Props.C04.stored_record_never_oversized
